@@ -118,7 +118,12 @@ def _history(opb, ops):
                 F.add_constraints_from(([(1, l) for l in c] + ['>=', 1]) for c in lazy())
             else:
                 F.add_clauses_from(lazy())
-            if got != [n0 + a + 2, n0 + a + 3, n0 + a + 4] or F.number_of_variables() != n0 + a + 4:
+            # whether the batch is inserted clause by clause or collected first is not documented, so the only demands are:
+            # the identifiers handed out are new (above everything that existed before the call), distinct, the block
+            # contiguous, and afterwards all of them - and everything the batch mentions - are declared
+            if len(set(got)) != 3 or min(got) <= n0 or got[2] != got[1] + 1:
+                return False
+            if F.number_of_variables() < max(got + [n0 + a + 1]):
                 return False
         elif kind == 9:
             G = GR.Graph(a + 1)
